@@ -383,6 +383,31 @@ def r4(ctx):
             for (lo, hi), edge in ((ivs[0], tr), (ivs[1], f)):
                 if hi is not None and hi <= mx - 1:
                     lt_max.append((bi, edge))
+    # a test kept in a flag (`let enough = total <= count || MAX <= count; .. if enough { .. } else { keep waiting }`): the flag's value is
+    # `true` (an earlier disjunct held) or the last disjunct; where the flag is false, every comparison among its alternatives is false
+    for bi, t, e in g.switches():
+        inner, neg = e, False
+        while inner[0] == "un" and inner[1] == "Not":
+            inner, neg = inner[2], not neg
+        if inner[0] != "phi" or not any(const_int_of(a) == 1 for a in inner[1]):
+            continue
+        cmps_ = [a for a in inner[1] if const_int_of(a) != 1]
+        if not cmps_ or not all(comparison(a) for a in cmps_):
+            continue
+        f, tr = g.bool_edges(bi)
+        false_edge = tr if neg else f
+        for a in cmps_:
+            nc = normalised_cmp(a, catom)
+            if not nc or "count" not in nc[0] or nc[2] in ("==", "!="):
+                continue
+            if set(nc[0]) == {"count", "total"} and nc[0]["count"] == -nc[0]["total"]:
+                ivs = cmp_intervals(nc[0]["count"], nc[1], nc[2])
+                if ivs[1][1] is not None and ivs[1][1] <= -1:
+                    lt_total.append((bi, false_edge))
+            if set(nc[0]) == {"count"}:
+                ivs = cmp_intervals(nc[0]["count"], nc[1], nc[2])
+                if ivs[1][1] is not None and ivs[1][1] <= mx - 1:
+                    lt_max.append((bi, false_edge))
     for bi, t in reins:
         r_t = b.reachable(0, removed_edges=lt_total)
         r_m = b.reachable(0, removed_edges=lt_max)
